@@ -353,7 +353,7 @@ func runRD(mode, tier string, shard, shards int, rep *SeqReport) {
 		for max := uint64(1); max <= 12; max++ {
 			cfgs = append(cfgs, rdCfg{false, w, max})
 		}
-		for max := uint64(7); max <= 15; max++ {
+		for max := uint64(7); max <= 20; max++ {
 			cfgs = append(cfgs, rdCfg{true, w, max})
 		}
 		for _, cfg := range cfgs {
@@ -389,15 +389,16 @@ func runRD(mode, tier string, shard, shards int, rep *SeqReport) {
 	// (ii) every window size: one mask bit at every position shifted by every distance
 	maxima := func(wrap bool) []uint64 {
 		if wrap {
+			// also maxima that are not of the form 2^k-1 (masking shortcuts are wrong there)
 			if tier != "thorough" {
-				return []uint64{1<<16 - 1, 1<<62 - 1}
+				return []uint64{1<<16 - 1, 1000, 1 << 16, 1<<62 - 1}
 			}
-			return []uint64{1<<16 - 1, 1<<48 - 1, 1<<62 - 1}
+			return []uint64{1<<16 - 1, 1<<48 - 1, 1<<62 - 1, 1000, 9999, 1 << 16, 1<<16 + 1, 100000}
 		}
 		if tier != "thorough" {
-			return []uint64{1<<48 - 1, 1<<64 - 1}
+			return []uint64{1<<48 - 1, 1000, 1<<64 - 1}
 		}
-		return []uint64{1<<16 - 1, 1<<48 - 1, 1<<64 - 1}
+		return []uint64{1<<16 - 1, 1<<48 - 1, 1<<64 - 1, 1000, 1 << 16, 100000}
 	}
 	for _, w := range rdWindows(tier) {
 		for _, wrap := range []bool{false, true} {
